@@ -10,10 +10,10 @@ import (
 
 func init() {
 	register(&propDef{
-		ID:    "C07",
-		Level: "other",
+		ID:      "C07",
+		Level:   "other",
 		Explain: "HTTP pass-through conditions decided on every path of proxy.HTTPProxy.ServeHTTP, the Director and the response-writer wrappers: (G1) every upstream-contact site is dominated by the target != nil edge of the route lookup; (N1) the no-route edge writes a status derived from Config.NoRouteStatus (404 on the out-of-range edge) and the noroute page, then returns; (D1) the Director stores only to req.URL.{Scheme,Host,Path,RawPath,RawQuery}, touches no header but User-Agent, and the ReverseProxy literal takes Transport/FlushInterval from its parameters; (H1) every Set/Add/Del/index-store on the request's header map reachable from ServeHTTP uses a key from the managed set (the forwarding headers, User-Agent, and the configured request-id / client-ip / TLS header names), and nothing stores to the request's Method, Body, Proto, ContentLength or TransferEncoding; (H2) every store to r.Host is control-dependent on a test of Target.Host; (U1) a function that stores a sliced/concatenated request path into a url.URL.Path sent upstream applies the same transformation to RawPath (the client's percent-encoding must survive strip/prepend); (U2) every transformed path is followed, on every path, by the absolute-path normalisation; (Q1) the route's query is the left operand of the merged query, the request's the right; (W1) every wrapper implementing http.ResponseWriter forwards Header/Write/WriteHeader arguments unchanged and returns the wrapped results. Not decided: body bytes, chunking and hop-by-hop header handling (delegated to net/http/httputil.ReverseProxy).",
-		Run:   runC07,
+		Run:     runC07,
 		Trusted: []string{"net/http/httputil.ReverseProxy copies method, body and end-to-end headers unchanged and removes hop-by-hop headers", "url.URL.EscapedPath uses RawPath only when it is a valid encoding of Path"},
 		Mutants: []mutant{
 			{Name: "no-route branch falls through to proxying", File: "proxy/http_proxy.go", Old: "\t\tif html != \"\" {\n\t\t\tio.WriteString(w, html)\n\t\t}\n\t\treturn\n\t}\n\n\tif t.AccessDeniedHTTP(r) {", New: "\t\tif html != \"\" {\n\t\t\tio.WriteString(w, html)\n\t\t}\n\t\tt = &route.Target{URL: r.URL}\n\t}\n\n\tif t.AccessDeniedHTTP(r) {", Expect: "C07.G1"},
